@@ -116,7 +116,13 @@ def __signature_to_member(sig: JSONSignatureDict) -> HeaderMember:
     member = HeaderMember()
     if "protected" in sig:
         protected_segment = sig["protected"]
-        member.protected = json_b64decode(protected_segment)
+        try:
+            protected = json_b64decode(protected_segment)
+        except (TypeError, ValueError):
+            raise DecodeError("Invalid header")
+        if not isinstance(protected, dict):
+            raise DecodeError("Invalid header")
+        member.protected = protected
     if "header" in sig:
         member.header = sig["header"]
     return member
